@@ -93,6 +93,41 @@ func c14Literal(kind string, k int) (src string, val interface{}) {
 	panic("kind")
 }
 
+func c14Zero(kind string) interface{} {
+	switch kind {
+	case "int":
+		return int(0)
+	case "int64":
+		return int64(0)
+	case "int8":
+		return int8(0)
+	case "uint8":
+		return uint8(0)
+	case "uint16":
+		return uint16(0)
+	case "bool":
+		return false
+	case "Cnt":
+		return c14Cnt(0)
+	case "Flt":
+		return c14Flt(0)
+	case "float64":
+		return float64(0)
+	case "complex128":
+		return complex128(0)
+	case "string":
+		return ""
+	case "S":
+		return struct {
+			A int
+			B string
+		}{}
+	case "[]int":
+		return []int(nil)
+	}
+	panic("kind")
+}
+
 func c14Inc(c *c14Cell) bool {
 	switch v := c.val.(type) {
 	case int:
@@ -139,7 +174,7 @@ func init() {
 		},
 		Run:        runC14,
 		FaultKinds: []string{"growth_chunk_buggified", "shipped_chunk_long_history", "declaration_after_address_taken"},
-		ProbeNames: []string{"redeclarations", "parallel_redeclarations", "first_evaluation_is_a_switch", "evaluations", "read_backs", "addresses_taken_of_integer_slots", "complex128_declared_after_address_taken", "declarations"},
+		ProbeNames: []string{"redeclarations", "redeclarations_without_initializer", "parallel_redeclarations", "first_evaluation_is_a_switch", "evaluations", "read_backs", "addresses_taken_of_integer_slots", "complex128_declared_after_address_taken", "declarations"},
 		RealVsStub: []string{
 			"real: Interp.Eval (parse, compile, PrepareEnv/prepareEnv growth, NewBind slot assignment, address-taking), every evaluation is a separate top-level statement as in the REPL",
 			"stub: the tuning knob 'minimum growth of the global slot arrays' (hook H5); nothing else",
@@ -385,7 +420,15 @@ func runC14(t *testing.T, ch *sim.Choices, tier string) (o Outcome) {
 			m.callers = keepC
 			m.getters = drop(m.getters, m.getterOf)
 			o.probe("redeclarations", 1)
-			if !eval(fmt.Sprintf("var %s %s = %s", v, kind, lit), "") {
+			stmt := fmt.Sprintf("var %s %s = %s", v, kind, lit)
+			if gen.Draw(3) == 0 {
+				// without initializer: the fresh variable holds the zero value of its kind,
+				// whatever the old variable (which may have used the same slot) held
+				stmt = fmt.Sprintf("var %s %s", v, kind)
+				m.cell[v].val = c14Zero(kind)
+				o.probe("redeclarations_without_initializer", 1)
+			}
+			if !eval(stmt, "") {
 				return
 			}
 		case op == 12 && len(m.getters) > 0:
